@@ -1,6 +1,6 @@
 """C16 — the type space stays consistent across any history of additions (explicit-state search).
 State = history of API calls on one TypeSpace, rebuilt by replaying on the real code (a snapshot after every op).
-Breadth-first over all histories to depth d over a 18-op alphabet, with repeats. Invariants after every transition:
+Breadth-first over all histories to depth d over a 19-op alphabet, with repeats. Invariants after every transition:
  I1 every type id seen earlier still resolves with the same (name, ident, structure);
  I2 repeating a type addition returns the same ident and adds no items;
  I3 no two items of one kind+name in the rendered stream, stream parses;
@@ -48,10 +48,12 @@ OPS = {
     "T3": {"type": obj({"k": STR}), "hint": "Labels"},
     "T4": {"type": {"$ref": "#/definitions/P"}, "hint": None},
     "T5": {"type": {"oneOf": [obj({"o": INT}), {"type": "null"}]}, "hint": "Opt"},
+    "T6": {"type": obj({"k": INT}), "hint": "Root3"},   # a hinted type that takes the name a later titled root asks for
 }
 ALPHABET = list(OPS)
 SUB6 = ["R1", "R3", "T1", "T3", "T4", "T5"]
 SUB_ORDER = ["R6", "R6r", "R6z", "R6a", "R2", "T1"]
+SUB_ROOTS = ["ROOT3", "T6", "ROOT2", "T1", "R2"]
 DEFINES = {"R6": set(D6), "R6r": set(D6), "R6z": {"Zest"}, "R6a": {"Apple"}, "R5": set(D5), "R1": set(D1), "R2": set(D2), "R3": set(D3), "R4": set(D4), "R12": set(D12), "ROOT1": set(D1) | {"Root1"}, "ROOT2": set(D2) | {"Root2"},
            "ROOT3": {"Root3"}}
 ROOT_TITLE = {"ROOT1": "Root1", "ROOT2": "Root2", "ROOT3": "Root3"}
@@ -63,7 +65,7 @@ INDEPENDENT = {frozenset(p) for p in [("R1", "R2"), ("R1", "R3"), ("R2", "R3"), 
                                       ("R5", "R2"), ("R5", "R3"), ("R5", "ROOT2"), ("R5", "ROOT3"), ("R5", "T5"), ("R5", "T1"),
                                       ("ROOT1", "ROOT2"), ("ROOT1", "R2"), ("ROOT2", "R1"), ("ROOT2", "R3"), ("ROOT1", "ROOT3"), ("ROOT2", "ROOT3"),
                                       ("R1", "ROOT3"), ("R2", "ROOT3"), ("R3", "ROOT3"), ("R12", "ROOT3"), ("ROOT3", "T5"), ("ROOT3", "T1")]}
-TYPE_OPS = {"T1", "T2", "T3", "T4", "T5"}
+TYPE_OPS = {"T1", "T2", "T3", "T4", "T5", "T6"}
 
 
 def enabled(hist, op):
@@ -92,6 +94,7 @@ def cases(tier, seed):
         tmp, out = out, more
         rec([], SUB6, 4)
         rec([], SUB_ORDER, 3)
+        rec([], SUB_ROOTS, 4)
         out = tmp + [c for c in more if tuple(c["history"]) not in seen]
     else:
         rec([], ALPHABET, 4)
@@ -100,6 +103,7 @@ def cases(tier, seed):
         tmp, out = out, more
         rec([], SUB6 + ["ROOT3", "R6"], 5)
         rec([], SUB_ORDER, 5)
+        rec([], SUB_ROOTS, 5)
         out = tmp + [c for c in more if tuple(c["history"]) not in seen]
     seen2, res_ = set(), []
     for c in out:
@@ -282,14 +286,14 @@ def execute(cases_, tier, seed):
     res.evaluations = len(cases_)
     res.extra.update({"histories": len(cases_), "commutation_checks": n_comm, "max_depth": max(len(c["history"]) for c in cases_)})
     res.samples = [c["history"] for c in cases_[:: max(1, len(cases_) // 5)]][:5]
-    res.bound = "tier=%s: all histories over the 18-op alphabet to depth %s" % (tier, "3 (and depth 4 over a 6-op, depth 3 over the 6-op ordering sub-alphabet)" if tier == "quick" else "4 (and depth 5 over an 8-op and the 6-op ordering sub-alphabet)")
+    res.bound = "tier=%s: all histories over the 19-op alphabet to depth %s" % (tier, "3 (and depth 4 over a 6-op, depth 3 over the 6-op ordering sub-alphabet)" if tier == "quick" else "4 (and depth 5 over an 8-op and the 6-op ordering sub-alphabet)")
     res.assumptions = ["histories are not extended past an op that returns Err (documented: the space is unspecified after an error)"]
     if not res.violations and (len(cases_) > 50 and (len(canon_states) < 30 or n_comm < 10)):   # a subject that breaks everything is reported through its violations, not as vacuity
         raise MachineryError("vacuity guard: states=%d commutation checks=%d" % (len(canon_states), n_comm))
     return res
 
 
-INLINE = {"T3": {"Labels"}, "R1": {"WInner"}, "R12": {"WInner"}, "ROOT1": {"WInner"}}
+INLINE = {"T6": {"Root3"}, "T3": {"Labels"}, "R1": {"WInner"}, "R12": {"WInner"}, "ROOT1": {"WInner"}}
 
 
 def _late_defined(h):
